@@ -850,6 +850,16 @@ Record unit_out := mkuo {
   u_vars : list var
 }.
 
+Definition has_external (v : var) : bool := sin (s "external") (v_attribs v).
+
+(* "type" not followed by "(": the statement may be taken by TYPE_RE (a derived type definition),
+   which the statement loop tries before VARIABLE_RE; such lines are outside this model *)
+Definition type_statement_like (line : str) : bool :=
+  match match_ci (s "type") line with
+  | Some r => match skip_ws r with c :: _ => negb (Ascii.eqb c c_lpar) | [] => true end
+  | None => false
+  end.
+
 (* the body lines that the model understands: declarations and attribute statements *)
 Fixpoint body_go (lines : list str) (st : attr_state) (vars : list var) (permission : str)
   : res (attr_state * list var) :=
@@ -861,7 +871,8 @@ Fixpoint body_go (lines : list str) (st : attr_state) (vars : list var) (permiss
     match a with
     | Some (g1, g2) => do st' <- record_attribute st g1 g2; body_go lines' st' vars permission
     | None =>
-      if is_declaration m then
+      if type_statement_like m then Unmodelled (s "TYPE statement (TYPE_RE precedes VARIABLE_RE)")
+      else if is_declaration m then
         do vs <- line_to_variables m lits permission; body_go lines' st (vars ++ vs) permission
       else match match_ci (s "intent") m with
            | Some _ => body_go lines' st vars permission   (* INTENT(IN OUT): matched by no pattern, skipped *)
@@ -870,7 +881,6 @@ Fixpoint body_go (lines : list str) (st : attr_state) (vars : list var) (permiss
     end
   end.
 
-Definition has_external (v : var) : bool := sin (s "external") (v_attribs v).
 
 Definition unit_model (h : header) (body : list str) : res unit_out :=
   let (pattrs, attribstr) := procedure_attributes (h_attributes h) in
